@@ -26,7 +26,19 @@ func (ex *Exec) unop(fr *Frame, x *ssa.UnOp) Value {
 	case token.XOR:
 		return ex.tc.Un(OBNot, v.(*Term))
 	case token.ARROW:
-		ex.unsupported("channel receive")
+		ch, _ := v.(*ChanV)
+		var elem types.Type
+		if ct, ok := x.X.Type().Underlying().(*types.Chan); ok {
+			elem = ct.Elem()
+		}
+		r, ok := ex.chanRecv(ch, elem)
+		if r == nil {
+			r = ex.zero(elem)
+		}
+		if x.CommaOk {
+			return TupleV{r, ex.tc.Bool(ok)}
+		}
+		return r
 	}
 	ex.unsupported("unop %v", x.Op)
 	return nil
@@ -329,11 +341,23 @@ func (ex *Exec) convert(from, to types.Type, v Value) Value {
 				return ex.mkStr(ex.sliceTerms(s))
 			}
 			if eb.Kind() == types.Int32 { // []rune
-				rs := make([]rune, s.len)
-				for i := range rs {
-					rs[i] = rune(ex.concretize(ex.sliceGet(s, i).(*Term), true, "rune"))
+				// each rune is UTF-8 encoded; a symbolic rune forks on its encoding width only
+				var out []*Term
+				for i := 0; i < s.len; i++ {
+					rt := ex.sliceGet(s, i).(*Term)
+					var one *StrV
+					if rt.IsConst() {
+						r := rune(int32(rt.val))
+						if r < 0 || r > utf8.MaxRune {
+							r = utf8.RuneError
+						}
+						one = ex.concStr(string(r))
+					} else {
+						one = ex.symRuneString(rt, types.Typ[types.Int32]).(*StrV)
+					}
+					out = append(out, ex.strBytes(one)...)
 				}
-				return ex.concStr(string(rs))
+				return ex.mkStr(out)
 			}
 		}
 		ex.unsupported("convert %v to string", from)
@@ -464,7 +488,10 @@ func (ex *Exec) callBuiltin(name string, args []Value, c *ssa.CallCommon, site t
 		case *ArrV:
 			return tc.Const(64, uint64(len(a.e)))
 		case *ChanV:
-			return tc.Const(64, 0)
+			if a == nil {
+				return tc.Const(64, 0)
+			}
+			return tc.Const(64, uint64(len(a.buf)))
 		}
 	case "cap":
 		switch a := args[0].(type) {
@@ -614,6 +641,8 @@ func (ex *Exec) callBuiltin(name string, args []Value, c *ssa.CallCommon, site t
 			return nil
 		}
 	case "close":
+		ch, _ := args[0].(*ChanV)
+		ex.chanClose(ch)
 		return nil
 	case "String": // unsafe.String(ptr, len)
 		p := args[0].(Ptr)
